@@ -33,6 +33,14 @@ Theorem collect_gate :
               (g_feat e = true <-> d_feat d = true /\ (m = true -> can_collect o d = true)).
 Proof. exact collect_gate_lemma. Qed.
 
+(* the COLLECT gate is the translated feature_can_be_used of the Rust source (gen/ScalarVisual.v) at the collect
+   thresholds: box area, feature quality and, when computed, the exclusively-owned area share, each at or above its minimum *)
+Theorem collect_thresholds_exact :
+  forall (o : gopts) (d : det),
+    can_collect o d = true <->
+    (o_min_area o <= d_area d)%Q /\ (o_q_collect o <= d_q d)%Q /\ (forall p, d_own d = Some p -> (o_own_collect o <= p)%Q).
+Proof. intros o d. apply feature_can_be_used_iff. Qed.
+
 Theorem newest_at_zero :
   forall (o : gopts) (steps : list (bool * det)) (m : bool) (d : det),
     exists e, hd_error (t_gal (track_run o (steps ++ [(m, d)]))) = Some e /\ g_uid e = d_uid d.
